@@ -796,9 +796,15 @@ func finish(d *Driver, tier string, seed int64, all []*ItemResult, wall time.Dur
 	}
 	ev.Violations = nViol
 	ev.WallS = wall.Seconds()
-	os.MkdirAll(filepath.Join(verifDir(), "evidence"), 0o755)
+	// evidence of a run against another tree (VERIF_REPO: seeded changes, scratch worktrees) must not replace
+	// the committed evidence of /repo
+	evDir := filepath.Join(verifDir(), "evidence")
+	if repoDir() != "/repo" {
+		evDir = filepath.Join(verifDir(), "scratch", "evidence-other-tree")
+	}
+	os.MkdirAll(evDir, 0o755)
 	raw, _ := json.MarshalIndent(ev, "", " ")
-	os.WriteFile(filepath.Join(verifDir(), "evidence", d.Prop+".json"), raw, 0o644)
+	os.WriteFile(filepath.Join(evDir, d.Prop+".json"), raw, 0o644)
 	for _, l := range outLines {
 		fmt.Println(l)
 	}
